@@ -33,6 +33,7 @@ pub fn run_line(e: &mut Eng, dbfile: &PathBuf, line: &str) -> Option<eng::Out> {
         "drop" => e.drop_session(num(rest)),
         "flush" => e.flush(),
         "vacuum" => e.vacuum(),
+        "audit" => e.audit(),
         "analyze" => e.analyze(),
         "explain" => e.explain(rest),
         _ => {
